@@ -124,6 +124,9 @@ type Options struct {
 const (
 	defaultMaxProofs = 1
 	defaultMaxDepth  = 64
+	// maxCandidates bounds the body solutions tried for a rule whose head
+	// contains function expressions.
+	maxCandidates = 10000
 )
 
 // ErrNoProof indicates that no proof was found for the goal. The goal may
@@ -215,15 +218,38 @@ func (e *explainer) explain(goal ast.Atom, depth int) []*ProofNode {
 		}
 		rulePremises := rule.Premises
 		uf := unionfind.New()
-		headUF, err := unionfind.UnifyTermsExtend(rule.Head.Args, baseTermsFrom(goal), uf)
+		// Function expressions in the head cannot be inverted. Unify the other
+		// arguments and compare the evaluated head with the goal afterwards.
+		var headArgs, goalArgs []ast.BaseTerm
+		headHasFn := false
+		for i, arg := range rule.Head.Args {
+			if _, ok := arg.(ast.ApplyFn); ok {
+				headHasFn = true
+				continue
+			}
+			headArgs = append(headArgs, arg)
+			goalArgs = append(goalArgs, goal.Args[i])
+		}
+		headUF, err := unionfind.UnifyTermsExtend(headArgs, goalArgs, uf)
 		if err != nil {
 			continue
 		}
 		remaining := e.opts.MaxProofs - len(proofs)
+		if headHasFn {
+			// Solutions whose head differs from the goal are discarded below.
+			remaining = maxCandidates
+		}
 		for _, sol := range e.solveBody(rulePremises, headUF, depth, remaining) {
 			if len(proofs) >= e.opts.MaxProofs {
 				break
 			}
+			if headHasFn {
+				head, err := functional.EvalAtom(rule.Head, sol.subst)
+				if err != nil || !head.Equals(goal) {
+					continue
+				}
+			}
+
 			proof, ok := e.buildProof(&e.program.Rules[ruleIdx], ruleIdx, rule, goal, sol, depth)
 			if !ok {
 				continue
